@@ -18,7 +18,7 @@ CHECKS["C02"] = {
             "distinct = distinct observation digests",
     "bounds": {"quick": "<=2 slot deviations, pipelines <=3", "thorough": "<=3 slot deviations, pipelines <=3, repeated under ASan+UBSan at <=2"},
     "assumptions": ["well-formed = sentences of the slot grammar in mc/gen.c", "whole-stream delivery (segmentation is C03's variable)"],
-    "jobs": lambda tier: [J("cutmc", "plain", ["--mode", "gen"])] + ([J("cutmc", "asan", ["--mode", "gen", "--dev", "2"])] if tier == "thorough" else []),
+    "jobs": lambda tier: [J("cutmc", "plain", ["--mode", "gen"] + (["--cuts", "2"] if tier == "thorough" else []))] + ([J("cutmc", "asan", ["--mode", "gen", "--dev", "2"])] if tier == "thorough" else []),
 }
 
 CHECKS["C03"] = {
